@@ -71,7 +71,7 @@ INFO_MENU = ["ins:res", "leaf:ef", "leaf:lzok", "leaf:lzraise"]
 # [style, asyncio_fn mode, xv]; xv=1: exception-valued variant (every constant and every task return value is an
 # Exception instance used as an ordinary value; an except clause keeps the caught exception object in the value)
 ALL_CFG = [[s, a, 0] for a in (0, 1, 2) for s in (0, 1, 2, 3)] + [[3, 0, 1], [3, 2, 1]]
-CFG_FEW = [[3, 0, 0], [3, 1, 0], [3, 2, 0], [3, 0, 1]]
+CFG_FEW = [[3, 0, 0], [3, 2, 0], [3, 0, 1]]
 CFG_ONE = [[3, 0, 0]]
 
 # (max size n, max deviations k, menu, configurations)
@@ -359,6 +359,9 @@ def jobs(tier, seed):
                 j = {"family": "main", "bases": bases, "menu": menu if k else [], "k": k, "cfgs": cs, "phase2": k <= PHASE2_MAX_K}
                 if k == TAIL_K:
                     j["tail_cfgs"] = TAIL_CFGS_SMALL if size <= 3 else TAIL_CFGS_LARGE
+                if k > TAIL_K and all(any(size <= n2 and k2 == TAIL_K and set(menu) <= set(m2) and c in c2 for (n2, k2, m2, c2) in done)
+                                      for c in cs):
+                    j["min_nd"] = TAIL_K + 1  # programs with fewer deviations already ran on an earlier rung under these configurations
                 yield j
         done.append((n, k, menu, cfgs))
     n, k = INFO_LADDER[tier]
@@ -657,6 +660,7 @@ def run(job, env):
     cnt = out["counters"]
     info = job["family"] == "info"
     phase2 = bool(job.get("phase2"))
+    min_nd = job.get("min_nd", 0)
     idx = 0
     for base in job["bases"]:
         base = progx._tuplify(base)
@@ -664,6 +668,8 @@ def run(job, env):
             idx += 1
             hb[0] = time.time()
             hb[2] = idx
+            if nd < min_nd:
+                continue
             prog = P.compile_prog(term)
             if info:
                 if nd:
